@@ -22,6 +22,8 @@ val compOpp : comparison -> comparison
 
 val add : nat -> nat -> nat
 
+val mul : nat -> nat -> nat
+
 type positive =
 | XI of positive
 | XO of positive
@@ -495,3 +497,54 @@ val init_classes : arr -> z list
 val label_classes : arr -> arr -> z list
 
 val label : arr -> arr -> z list * z
+
+val remove_centre : arr -> arr
+
+val better : bool -> z -> z -> bool
+
+val locmm_at : bool -> arr -> arr -> z list -> bool
+
+val locmm : bool -> arr -> arr -> z list
+
+val locmm_spec : bool -> arr -> arr -> z list -> bool
+
+val nbr_offsets : arr -> z list list
+
+val flood_unmark :
+  nat -> z list -> z list list -> z list -> z list list -> z list
+
+val weakly_better : bool -> z -> z -> bool
+
+val regmm_step : bool -> arr -> z list list -> z list -> z list -> z list
+
+val regmm : bool -> arr -> arr -> z list
+
+val inimg_nbrs : arr -> z list list -> z list -> z list list
+
+val plateau_pairs : arr -> z list list -> (z * z) list
+
+val plateau_classes : arr -> z list list -> z list
+
+val regmm_spec : bool -> arr -> arr -> z list
+
+val flood_mark : nat -> arr -> z list list -> z list -> z list list -> z list
+
+val on_border : z list -> z list -> bool
+
+val close_holes : arr -> arr -> z list
+
+val bg_pairs : arr -> z list list -> (z * z) list
+
+val close_holes_spec : arr -> arr -> z list
+
+val margin_ok : z -> z -> z -> bool
+
+val hm_inside : z list -> z list -> z list -> bool
+
+val hm_match : arr -> arr -> z list -> bool
+
+val hitmiss : arr -> arr -> z list
+
+val template_inside : arr -> arr -> z list -> bool
+
+val hitmiss_spec : arr -> arr -> z list
